@@ -29,17 +29,21 @@ VARIABLES
   owed,     \* peers whose block was seen in a pair the spec refuses and who have not been stopped since
   failH,    \* heights of the refused pairs seen at the current pool.height (see StepStopPeer)
   wide,     \* [p, h] such that p has reported a range covering h at some point of the run
+  kept,     \* [h, uid, p, n]: the requester of h holds block uid of peer p although p is out of the pool and
+            \* disconnected and no redo is queued; n = environment steps (each preceded by a quiescence wait
+            \* of the harness) this has been seen to last
+  holder,   \* height -> the peer that delivered the block the requester of that height holds (from Response events)
   cands,    \* the pool states the reactor's IsCaughtUp may have seen: [honest, cu] of the pool logged at the
             \* last Tick (taken right before the reactor's own evaluation) and of every pool logged since
   hand,     \* [done, h, honestInPool] from the Handover event
   viol, drift
 
-vars == <<l, tT, honest, gp, blocks, gst, gstore, owed, failH, wide, cands, hand, viol, drift>>
+vars == <<l, tT, honest, gp, blocks, gst, gstore, owed, failH, wide, cands, holder, kept, hand, viol, drift>>
 
 EmptyPool == [h |-> 1, req |-> << >>, peers |-> << >>, maxH |-> 0, np |-> 0]
 Init ==
   /\ l = 1 /\ tT = 0 /\ honest = {} /\ gp = EmptyPool /\ blocks = << >>
-  /\ gst = [h |-> 0, lastID |-> NoBID] /\ gstore = << >> /\ owed = {} /\ failH = {} /\ wide = {} /\ cands = {}
+  /\ gst = [h |-> 0, lastID |-> NoBID] /\ gstore = << >> /\ owed = {} /\ failH = {} /\ wide = {} /\ cands = {} /\ holder = << >> /\ kept = {}
   /\ hand = [done |-> FALSE, h |-> 0, honestInPool |-> FALSE]
   /\ viol = {} /\ drift = {}
 
@@ -67,7 +71,11 @@ PoolOfLog(lp, tbl) ==
                  ELSE [peer |-> rq(h).peer,
                        blk |-> IF rq(h).blk = "nil" THEN NilBlk
                                ELSE IF rq(h).blk \in DOMAIN tbl THEN tbl[rq(h).blk]
-                               ELSE Unknown(rq(h).blk, h)]]
+                               ELSE Unknown(rq(h).blk, h),
+                       \* (the projection has no sender: level 1 takes the owner; who really delivered a block
+                       \* is kept in `holder` from the Response events and judged at level 2)
+                       from |-> IF rq(h).blk = "nil" THEN Nil ELSE rq(h).peer,
+                       prev |-> Nil]]
   IN [h |-> lp.h, maxH |-> lp.maxH,
       \* bpPeer.numPending is incremented under the pool's lock when the peer is picked, the requester
       \* stores the peer id a moment later: the logged per-peer counter may run ahead of the requesters
@@ -134,9 +142,33 @@ InstallM(e, expected, tbl, st, extraDrift, extraViol, stoppedNow, mid) ==
   LET lp == PoolOfLog(e.pool, tbl)
       alive == Range(e.pool.sw)
       midRefused == PairRefused(mid, st) /\ ~hand.done
+      \* raw logged requesters: which heights hold a block right now
+      held == {e.pool.req[i].h : i \in {j \in 1..Len(e.pool.req) : e.pool.req[j].blk # "nil"}}
+      \* the accepted block of this very event (a Response whose block now sits in the requester it met)
+      took == e.ev = "Response" /\ e.pre.blk = "nil"
+              /\ \E i \in 1..Len(e.pool.req) : e.pool.req[i].h = e.blk.h /\ e.pool.req[i].blk = e.blk.uid
+      hold2 == [h \in (DOMAIN holder \cap held) \cup (IF took THEN {e.blk.h} ELSE {}) |->
+                  IF took /\ h = e.blk.h THEN e.p ELSE holder[h]]
+      \* "the request is retried elsewhere": removePeer redoes EVERY requester of the removed peer (a redo is
+      \* queued under the pool's lock); a block of a peer that is out of the pool and disconnected, with no
+      \* redo queued, that survives two further environment steps was not redone
+      rawPeers == {e.pool.peers[i].p : i \in 1..Len(e.pool.peers)}
+      stale == {[h |-> e.pool.req[i].h, uid |-> e.pool.req[i].blk, p |-> e.pool.req[i].peer] :
+                  i \in {j \in 1..Len(e.pool.req) : /\ e.pool.req[j].blk # "nil" /\ ~e.pool.req[j].redo
+                                                     /\ e.pool.req[j].peer # "nil"
+                                                     /\ e.pool.req[j].peer \notin rawPeers
+                                                     /\ e.pool.req[j].peer \notin alive}}
+      envStep == e.ev \in {"Join", "Status", "Response", "NoBlock", "Timeout", "Retry"}
+      kept2 == {[h |-> x.h, uid |-> x.uid, p |-> x.p,
+                 n |-> IF \E k \in kept : k.h = x.h /\ k.uid = x.uid /\ k.p = x.p
+                       THEN (CHOOSE k \in kept : k.h = x.h /\ k.uid = x.uid /\ k.p = x.p).n + (IF envStep THEN 1 ELSE 0)
+                       ELSE 0] : x \in stale}
+      keptViol == IF hand.done THEN {} ELSE {k \in kept2 : k.n = 2 /\ envStep}
+      \* the peers that SENT the blocks of a pair
+      senders(pool) == {hold2[h] : h \in {pool.h, pool.h + 1} \cap DOMAIN hold2}
       \* (after the hand-over the pool is stopped: nothing is decided any more)
-      newOwed == (IF PairRefused(lp, st) /\ ~hand.done /\ e.ev # "Handover" THEN FailPeers(lp) \cap alive ELSE {})
-                 \cup (IF midRefused THEN FailPeers(mid) \cap alive ELSE {})
+      newOwed == (IF PairRefused(lp, st) /\ ~hand.done /\ e.ev # "Handover" THEN (FailPeers(lp) \cup senders(lp)) \cap alive ELSE {})
+                 \cup (IF midRefused THEN (FailPeers(mid) \cup senders(mid)) \cap alive ELSE {})
   IN /\ gp' = lp
      /\ drift' = drift \cup extraDrift
                  \cup FailIf(lp \notin {NormPeers(x) : x \in expected},
@@ -146,6 +178,9 @@ InstallM(e, expected, tbl, st, extraDrift, extraViol, stoppedNow, mid) ==
                  \cup FailIf(~PendingExact(lp), D("numPending is not the number of requesters without a block"))
                  \cup FailIf(~PeerCounterOK(e.pool), D("a peer's numPending is below the requests it owes or above the limit"))
      /\ viol' = viol \cup extraViol
+                \cup FailIf(keptViol # {}, V("RetriedElsewhere", "block-kept"))
+     /\ holder' = hold2
+     /\ kept' = kept2
      /\ owed' = (owed \ stoppedNow) \cup newOwed
      /\ LET c == [honest |-> (DOMAIN lp.peers \cap honest) # {}, cu |-> IsCaughtUp(lp)] IN
           cands' = IF e.ev = "Tick" THEN {c} ELSE IF cands = {} THEN {} ELSE cands \cup {c}
@@ -159,7 +194,7 @@ StepReset(e) ==
   /\ tT' = e.T
   /\ honest' = {e.peers[i].p : i \in {j \in 1..Len(e.peers) : e.peers[j].honest}}
   /\ gp' = EmptyPool /\ blocks' = << >>
-  /\ gst' = [h |-> 0, lastID |-> NoBID] /\ gstore' = << >> /\ owed' = {} /\ failH' = {} /\ wide' = {} /\ cands' = {}
+  /\ gst' = [h |-> 0, lastID |-> NoBID] /\ gstore' = << >> /\ owed' = {} /\ failH' = {} /\ wide' = {} /\ cands' = {} /\ holder' = << >> /\ kept' = {}
   /\ hand' = [done |-> FALSE, h |-> 0, honestInPool |-> FALSE]
   /\ UNCHANGED <<viol, drift>>
 
@@ -202,7 +237,9 @@ StepResponse(e) ==
       \* the requester the block met, as the harness read it under the pool's lock
       met == IF e.pre.peer = "none" THEN x
              ELSE [x EXCEPT !.req = [h \in ReqHeights(x) \cup {b.h} |->
-                      IF h = b.h THEN [peer |-> e.pre.peer, blk |-> BlockById(e.pre.blk, b.h)] ELSE x.req[h]]]
+                      IF h = b.h THEN [peer |-> e.pre.peer, blk |-> BlockById(e.pre.blk, b.h),
+                                       from |-> IF e.pre.blk = "nil" THEN Nil ELSE e.pre.peer, prev |-> Nil]
+                      ELSE x.req[h]]]
       r   == AddBlock(met, e.p, b)
       gen == IF e.kind = "H" THEN CanonBlock(b.h)
              ELSE IF e.kind = "heightUp" THEN CanonBlock(e.h + 1)
@@ -210,10 +247,18 @@ StepResponse(e) ==
              ELSE BlockOfKind(e.kind, e.h)
       \* the real validateBlock on the block against the canonical state before it
       vbSpec == ValidateBlock([h |-> b.h - 1, lastID |-> IF b.h = 1 THEN NoBID ELSE CanonBID(b.h - 1)], VAt(b.h - 1), b)
+      \* the requester the block met had no block, now holds this one -- and neither before nor after the call
+      \* is the sender the peer that requester is asking
+      postPeer == IF \E i \in 1..Len(e.pool.req) : e.pool.req[i].h = b.h
+                  THEN e.pool.req[CHOOSE i \in 1..Len(e.pool.req) : e.pool.req[i].h = b.h].peer ELSE "none"
+      tookIt == e.pre.blk = "nil" /\ \E i \in 1..Len(e.pool.req) : e.pool.req[i].h = b.h /\ e.pool.req[i].blk = b.uid
   IN /\ blocks' = tbl
      /\ InstallM(e, {Infer(r.pool, lp)}, tbl, gst,
                  FailIf(b # gen, D("block built by the harness is not the spec's block of that kind"))
-                 \cup FailIf(e.vb # vbSpec, D("real ValidateBlock disagrees with the spec's")), {}, {}, r.pool)
+                 \cup FailIf(e.vb # vbSpec, D("real ValidateBlock disagrees with the spec's")),
+                 FailIf(tookIt /\ e.pre.peer # e.p /\ postPeer # e.p,
+                        V("AcceptOnlyFromAsked", e.kind \o ":asked=" \o (IF e.pre.peer \in honest THEN "honest" ELSE "other"))),
+                 {}, r.pool)
      /\ UNCHANGED <<tT, honest, gst, gstore, hand, wide>>
 
 StepPlain(e) ==   \* NoBlock, Timeout
@@ -221,6 +266,14 @@ StepPlain(e) ==   \* NoBlock, Timeout
       x  == Infer(gp, lp)
       y  == IF e.ev = "Timeout" /\ e.p \in DOMAIN x.peers THEN [x EXCEPT !.peers[e.p].to = TRUE] ELSE x
   IN /\ Install(e, {y}, blocks, gst, {}, {}, {})
+     /\ UNCHANGED <<tT, honest, blocks, gst, gstore, hand, wide>>
+
+\* the requester's 30 s retry timer (driven by the harness through the same redo -> reset path)
+StepRetry(e) ==
+  LET lp == PoolOfLog(e.pool, blocks)
+      x  == Infer(gp, lp)
+      y  == IF CanRetry(x, e.h) THEN Retry(x, e.h) ELSE x
+  IN /\ Install(e, {Infer(y, lp), y}, blocks, gst, {}, {}, {})
      /\ UNCHANGED <<tT, honest, blocks, gst, gstore, hand, wide>>
 
 \* poolRoutine is about to evaluate IsCaughtUp; the harness evaluated it on the same pool: TRUE
@@ -332,6 +385,7 @@ Step ==
          [] e.ev = "Timeout"  -> StepPlain(e)
          [] e.ev = "StopPeer" -> StepStopPeer(e)
          [] e.ev = "Tick"     -> StepTick(e)
+         [] e.ev = "Retry"    -> StepRetry(e)
          [] e.ev = "Save"     -> StepSave(e)
          [] e.ev = "Apply"    -> StepApply(e)
          [] e.ev = "Handover" -> StepHandover(e)
@@ -343,7 +397,7 @@ Finish ==
   /\ l = Len(Trace) + 1
   /\ WriteVerdict("verdict.json", Len(Trace), viol, drift)
   /\ l' = l + 1
-  /\ UNCHANGED <<tT, honest, gp, blocks, gst, gstore, owed, failH, hand, viol, drift, wide, cands>>
+  /\ UNCHANGED <<tT, honest, gp, blocks, gst, gstore, owed, failH, hand, viol, drift, wide, cands, holder, kept>>
 
 Next == Step \/ Finish
 =============================================================================
